@@ -52,3 +52,27 @@ Section Env.
     now rewrite H, H'.
   Qed.
 End Env.
+
+(** * The same for EVERY command line and every automaton (after the D8 repair)
+    No hypothesis on the line (it may hold malformed tokens, folded tokens carrying '=', anything) nor on the
+    spec (a spec-level "--" included): a run accepted without the extra environment values is, step by step,
+    a run with them, with the same bindings. *)
+Section EnvAll.
+  Variables D D' : optinfo.
+  Hypothesis Hmore : more_env D D'.
+
+  Theorem acc_mono_all g s a ro bs : Acc D g s a ro bs -> Acc D' g s a ro bs.
+  Proof.
+    induction 1 as [s a ro He Ht | s a ro l t rem ro' b bs' Hedge Hrun Hrest IH].
+    - now apply AccEnd.
+    - eapply AccStep; [exact Hedge | | exact IH]. now apply (step_mono_all D D' Hmore).
+  Qed.
+
+  Theorem env_only_enlarges_all g start a bs :
+    wf_graph g -> start < nstates g ->
+    fsm_apply D g start a = AOk bs -> exists bs', fsm_apply D' g start a = AOk bs'.
+  Proof.
+    intros Hwf Hs Ha. apply fsm_apply_sound in Ha.
+    apply (fsm_apply_complete D' g Hwf start a bs Hs). now apply acc_mono_all.
+  Qed.
+End EnvAll.
